@@ -154,4 +154,37 @@ CHECKS = {
              "clean close+reopen is exercised). Outside the compared patterns: cursor use after Cursor.Delete without re-positioning, and Last/Prev over a "
              "multi-page bucket that had deletions in the same transaction (bbolt 1.3.11 Cursor.Prev stops at an emptied leaf page - dependency behaviour, "
              "recorded in DESIGN 9.3, probe VERIF_C11_PROBE=1). No axioms (Print Assumptions closed x11; coqchk: none)."),
+    "C15": dict(
+        text="Model Sync/Sync.v of connectBlock / disconnectBlock / addRelevantTx / PutSyncedTo (window map with pruning at MaxReorgDepth) / the syncWithChain "
+             "rollback loop / catchUpHashes. Ten theorems: for every valid evolution (reorg of any depth whose lowest replaced block is inside the stored "
+             "window, wallet txs anywhere in the new blocks, notified before or after BlockConnected) and every stream obtained from its notifications by "
+             "inserting stale, repeated or future disconnects and redundant tx notifications, no handler fails and afterwards synced-to = backend tip, every "
+             "height in [lo, tip] stores the best chain's hash, and no tx record names a block off the best chain (lo = max(start of following, highest tip "
+             "- MaxReorgDepth + 1)); the same after every single notification and over any number of evolutions; start-up: the rollback loop terminates at "
+             "the last common block, synced-to becomes that block, the store is rolled back from exactly that height + 1, then the rescan brings the wallet to "
+             "the backend chain; C15_refuted_at_pinned for the pre-fix handler. Premise regenerated from source by a go/ast extractor: "
+             "disconnect_records_parent_hash = true (eq_refl), MaxReorgDepth. Tie to the code: real wallet over simchain, random evolutions (reorg depth 1-8, "
+             "wallet txs in replaced blocks, stale/repeated disconnects, offline periods through the real ClientConnected -> syncWithChain -> Rescan path, one "
+             "case beyond MaxReorgDepth), SyncedTo/BlockHash/RangeTransactions observed after every notification.",
+        note="Defect S1 found and repaired (fix: 8ce830b); replay runs first from corpus/C15. The transaction store is only the projection (txid, confirming "
+             "block)/unconfirmed here (conflicts are C01/C02's subject). Start-up hypotheses: backend tip >= wallet synced height, fork point inside the window. "
+             "Observations not flagged: a backend chain shorter than the wallet's synced height makes syncWithChain retry forever; stale hash entries above the "
+             "tip are never removed. int32 wrap outside the model. No axioms."),
+    "C10": dict(
+        text="Theorem leg (Properties/C10.v): for every program of a free-monad language over a bucket store (Read, one Write per mutating call, Fail, Bind - "
+             "covering sequences, conditionals on reads, bounded loops, fuel recursion), every store s and every fault position k: the run reports an error, or "
+             "k >= writes(op,s) and result, store and call count equal the fault-free run (never Ok after a strict prefix of the writes); every k < writes "
+             "yields Err Injected at call k; discarding the working copy restores the store; a retry equals the clean run; memory-after-disk operations restore "
+             "memory too. Instantiated by transcriptions (order and count of every Put/Delete/CreateBucket per branch) of the wtxmgr events and the waddrmgr disk "
+             "parts. Premise all_propagated = true from Generated/ErrFlow.v (265 error-carrying call sites of wtxmgr and waddrmgr classified by a go/ast+go/types "
+             "extractor; 'dropped' includes `if err != nil { return nil }`), discharged by eq_refl. Dynamic leg: for states of generated histories of the real "
+             "store and the real manager, every mutating operation is probed on its own copy of the bbolt file and for EVERY k in 1..n the k-th mutating walletdb "
+             "call fails: error reported, bucket tree after rollback equal to before, every query answers as before, retry equals the clean run; the observed n "
+             "and error pattern must equal the Coq program on the model state.",
+        category="proof",
+        note="One swallowed write error found and repaired (fix: 25cbf4f, replay runs first from corpus/C10). PARTIAL: the 'in-memory managers answer as before' "
+             "clause is proved only for memory-after-disk operations; for the real managers it is exercised, and 19 (kind, site) pairs caused by eager in-memory "
+             "updates (RenameAccount, SetSyncedTo, Extend*, Next* address cache, Import*, SetBirthday, ChangePassphrase, NewScopedKeyManager; 6 of them as "
+             "retry_differs consequences) are recorded known findings (same root cause as C08's S4/S10/S11). One failing write per database transaction; commit "
+             "failures are C08/C11. Trusted: the hand transcription (tie = exact write-count correspondence), go/ast extractor, faultdb, bbolt. No axioms."),
 }
